@@ -215,6 +215,8 @@ pub struct Segments;
 
 /// Length of the server->client stream of the session below (header to CloseOk).
 const SEGMENTS_STREAM_LEN: usize = 460;
+/// ... and of the short session in which the server closes right behind OpenOk.
+const SEGMENTS_CLOSING_LEN: usize = 175;
 
 impl Scenario for Segments {
     fn name(&self) -> &'static str {
@@ -233,6 +235,12 @@ impl Scenario for Segments {
                 }
             }
         }
+        // a second, short session: the server closes the connection right behind OpenOk (three
+        // frames in one burst whose order matters)
+        v.push(json!({"cuts": [], "closing": true}));
+        for k in 1..SEGMENTS_CLOSING_LEN {
+            v.push(json!({"cuts": [k], "closing": true}));
+        }
         v
     }
     fn bound(&self, tier: &str, p: &Value) -> usize {
@@ -247,14 +255,16 @@ impl Scenario for Segments {
     }
     fn build(&self, p: &Value) -> Built {
         let mut hs = Handshake::default();
-        hs.after_open = vh::sim::broker::Stage::Frames(
-            vec![
-                AMQPFrame::Method(0, AMQPClass::Connection(pconnection::AMQPMethod::OpenOk(pconnection::OpenOk { known_hosts: String::new() }))),
-                AMQPFrame::Heartbeat(0),
-                AMQPFrame::Method(0, AMQPClass::Connection(pconnection::AMQPMethod::Blocked(pconnection::Blocked { reason: "alarm".into() }))),
-            ],
-            false,
-        );
+        let closing = p["closing"] == true;
+        let mut behind = vec![
+            AMQPFrame::Method(0, AMQPClass::Connection(pconnection::AMQPMethod::OpenOk(pconnection::OpenOk { known_hosts: String::new() }))),
+            AMQPFrame::Heartbeat(0),
+            AMQPFrame::Method(0, AMQPClass::Connection(pconnection::AMQPMethod::Blocked(pconnection::Blocked { reason: "alarm".into() }))),
+        ];
+        if closing {
+            behind.push(conn_close_frame(320, "going down"));
+        }
+        hs.after_open = vh::sim::broker::Stage::Frames(behind, false);
         let mut broker = StdBroker::new(hs);
         let mut f = vec![deliver(1, "ctag-1-2", 7), header(1, 5, true), body(1, &[1, 2]), body(1, &[3, 4, 5])];
         f.push(AMQPFrame::Method(1, AMQPClass::Basic(basic::AMQPMethod::Return(basic::Return { reply_code: 312, reply_text: "NO_ROUTE".into(), exchange: "rex".into(), routing_key: "rrk".into() }))));
@@ -318,6 +328,25 @@ impl Scenario for Segments {
     fn check(&self, p: &Value, o: &Outcome, _w: &World) -> Vec<(String, String)> {
         let mut v = Vec::new();
         let main = o.logs.get("main").cloned().unwrap_or_default();
+        if p["closing"] == true {
+            // whether the open itself already fails or the first call does depends on what had
+            // arrived when OpenOk was seen; the cause must be the server's close either way, and
+            // the client must have answered it
+            // (a call made after the I/O thread has answered the close and gone reports that)
+            let first_ok = main.first().map(|l| l == "open_channel -> Err(ServerClosedConnection(320,going down))" || l == "open_channel -> Err(EventLoopDropped)").unwrap_or(false);
+            let ok = (main.len() == 2 && first_ok && main[1] == "close -> Err(ServerClosedConnection(320,going down))") || main == vec!["open -> Err(ServerClosedConnection(320,going down))".to_string()];
+            if !ok {
+                v.push(("segments:closing-observations".into(), format!("server stream cut at {:?}: observed {:?}", p["cuts"], main)));
+            }
+            let (envs, _) = wire_frames(o);
+            if !envs.last().map(|e| e.chan == 0 && is_method(e, 10, 51)).unwrap_or(false) {
+                v.push(("segments:closing-no-close-ok".into(), format!("server stream cut at {:?}: the last frame written is not Connection.CloseOk", p["cuts"])));
+            }
+            if o.inbound.len() >= SEGMENTS_CLOSING_LEN {
+                v.push(("segments:scenario".into(), format!("scenario error: the server stream has {} bytes, the sweep covers {}", o.inbound.len(), SEGMENTS_CLOSING_LEN)));
+            }
+            return v;
+        }
         // the unsegmented run, written down once
         let want = vec![
             format!("delivery tag=7 red=false ex=ex7 rk=rk7 body=[1, 2, 3, 4, 5] props={:?}", props_of(true)),
@@ -974,6 +1003,65 @@ impl Scenario for Listeners {
     }
 }
 
+/// C07: the wake-up in which the transport finally takes the client exception's
+/// Connection.Close while a publish from another thread waits right behind that event.
+fn exception_batch(kind: &str) -> Built {
+    let mut broker = StdBroker::new(Handshake::default());
+    broker.strict_content = false;
+    let (frames, _, _) = violation_frames(kind);
+    broker.pushes.push(Push::new("bad", frames).manual());
+    let mut cfg = EnvConfig::default();
+    cfg.time = false;
+    cfg.stall_on_seal = true;
+    cfg.no_grants = true;
+    Built {
+        broker: Box::new(broker),
+        cfg,
+        root: Box::new(move |ctx: Ctx| {
+            let mut conn = match open(&ctx, ConnectionOptions::default().heartbeat(0), ConnectionTuning::default()) {
+                Ok(c) => c,
+                Err(e) => {
+                    ctx.log(format!("open -> Err({})", err_name(&e)));
+                    return;
+                }
+            };
+            let ch1 = conn.open_channel(Some(1)).expect("ch1");
+            let ch2 = conn.open_channel(Some(2)).expect("ch2");
+            let (go_tx, go) = crossbeam_channel::bounded::<()>(1);
+            let p = ctx.spawn("p", move |ctx| {
+                let _ = ctx.recv("go", &go);
+                let r = ch2.basic_publish("", Publish::new(&[1, 2, 3], "k"));
+                ctx.log(format!("publish -> {}", res(&r)));
+                let _ = ctx.recv("finish", &go);
+                ctx.forget(ch2);
+            });
+            // the offending frame, handled in a wake-up of its own: the exception's Close is queued,
+            // the output sealed, and the transport (stall_on_seal) does not take it
+            ctx.wait_io_quiet();
+            ctx.hold_io(true);
+            if !ctx.force_push("bad") {
+                ctx.log("push not possible");
+            }
+            ctx.hold_io(false);
+            ctx.wait_io_quiet();
+            // one wake-up with two events, in this order: the transport is writable again; channel
+            // 2 has a publish waiting
+            ctx.hold_io(true);
+            ctx.force_grant();
+            let _ = go_tx.send(());
+            ctx.wait_blocked(p);
+            ctx.log("batch built");
+            ctx.hold_io(false);
+            ctx.wait_io_quiet();
+            drop(go_tx);
+            ctx.join(p);
+            ctx.forget(ch1);
+            let r = conn.close();
+            ctx.log(format!("close -> {}", res(&r)));
+        }),
+    }
+}
+
 /// C13, unread listeners: `k` publishes acknowledged by the broker and `k` returned messages
 /// (one push) while the confirm and return listeners are not read; then both are read.
 fn flood_listeners(k: usize) -> Built {
@@ -1063,9 +1151,19 @@ impl Scenario for Violations {
         ["header-without-method", "body-without-method", "second-header", "body-overrun", "method-mid-content", "unopened-channel", "content-on-channel0", "unknown-tag", "duplicate-tag", "client-only-method", "unimplemented-class", "huge-body-size"]
             .iter()
             .map(|k| json!({"kind": k}))
+            // the client-exception kinds again with a second thread publishing on another channel:
+            // whatever it hands over after the exception must not follow Connection.Close
+            .chain(["content-on-channel0", "client-only-method", "unimplemented-class"].iter().map(|k| json!({"kind": k, "publisher": true})))
+            // ... and the one wake-up in which the transport takes the exception's Close and a
+            // publish of another thread is waiting right behind that event, built with the batch
+            // driver (the window is three or more deviations away from the default schedule)
+            .chain(["client-only-method", "unimplemented-class"].iter().map(|k| json!({"kind": k, "publisher": "batch"})))
             .collect()
     }
-    fn bound(&self, tier: &str, _p: &Value) -> usize {
+    fn bound(&self, tier: &str, p: &Value) -> usize {
+        if p["publisher"] == "batch" {
+            return 0;
+        }
         if tier == "thorough" {
             3
         } else {
@@ -1077,6 +1175,10 @@ impl Scenario for Violations {
     }
     fn build(&self, p: &Value) -> Built {
         let kind = p["kind"].as_str().unwrap().to_string();
+        if p["publisher"] == "batch" {
+            return exception_batch(&kind);
+        }
+        let with_publisher = p["publisher"] == true;
         let mut broker = StdBroker::new(Handshake::default());
         broker.strict_content = false;
         let last = chain(&mut broker, "valid", vec![deliver(1, "ctag-1-2", 50), header(1, 1, false), body(1, &[6])], None, Some((1, 2)));
@@ -1096,6 +1198,18 @@ impl Scenario for Violations {
                     }
                 };
                 let ch = conn.open_channel(Some(1)).expect("ch1");
+                let publisher = if with_publisher {
+                    let ch2 = conn.open_channel(Some(2)).expect("ch2");
+                    Some(ctx.spawn("p", move |ctx| {
+                        for i in 0..3u8 {
+                            let r = ch2.basic_publish("", Publish::new(&[i], "k"));
+                            ctx.log(format!("publish{} -> {}", i, res(&r)));
+                        }
+                        ctx.forget(ch2);
+                    }))
+                } else {
+                    None
+                };
                 let consumer = ch.basic_consume("q", ConsumerOptions::default()).expect("consume");
                 let rx = consumer.receiver().clone();
                 if kind == "huge-body-size" {
@@ -1109,6 +1223,9 @@ impl Scenario for Violations {
                 }
                 std::mem::forget(consumer);
                 ctx.forget(ch);
+                if let Some(p) = publisher {
+                    ctx.join(p);
+                }
                 let r = conn.close();
                 ctx.log(format!("close -> {}", res(&r)));
             }),
@@ -1129,7 +1246,11 @@ impl Scenario for Violations {
             }
         }
         let msgs: Vec<&String> = main.iter().filter(|l| l.starts_with("consumer <- Delivery")).collect();
-        if msgs.len() != 1 || *msgs[0] != "consumer <- Delivery(tag=50,body=[6])" {
+        if p["publisher"] == "batch" {
+            if !main.iter().any(|l| l == "batch built") {
+                v.push(("violations:batch-driver".into(), format!("{:?}", main)));
+            }
+        } else if msgs.len() != 1 || *msgs[0] != "consumer <- Delivery(tag=50,body=[6])" {
             v.push(("violations:mis-delivered".into(), format!("{}: consumer saw {:?}, expected only the valid delivery 50", kind, msgs)));
         }
         if let (Some(code), true) = (code, main.iter().any(|l| l == "close -> Err(ClientException)")) {
